@@ -24,7 +24,7 @@ LEVEL = "model_checking"
 KEYS = ["a", "b"]
 MECHS = ["method", "copy", "deepcopy"] + ["pickle%d" % p for p in range(0, pickle.HIGHEST_PROTOCOL + 1)]
 DEEP = {"deepcopy"} | {m for m in MECHS if m.startswith("pickle")}
-BUILDERS = ["ctor", "appends", "rev_insert", "append_pop", "setitem_dup"]
+BUILDERS = ["ctor", "appends", "rev_insert", "append_pop", "setitem_dup", "with_attributes"]
 
 
 def mkval(tag):
@@ -54,6 +54,15 @@ def build(cls, pairs, builder):
             o.append(k, v)
         o.append("b", 7)
         o.pop()
+    elif builder == "with_attributes":
+        # what every loaded module looks like: instance attributes next to the items
+        for k, v in items:
+            o.append(k, v)
+        o.errors = [3, 1]
+        o.note = {"source": "f.lbl"}
+        for _, v in items:
+            if isinstance(v, impl.OrderedMultiDict):
+                v.errors = []
     elif builder == "setitem_dup":
         # leaves the same list, but went through the replace-and-drop path
         for k, v in items:
